@@ -10,6 +10,7 @@ import (
 
 	"verif/internal/kinds"
 	"verif/internal/load"
+	"verif/internal/norm"
 	"verif/internal/paths"
 	"verif/internal/report"
 )
@@ -50,6 +51,7 @@ func TraverseSlots(p *load.Program, tb *kinds.Table) *report.RuleResult {
 		}
 	}
 	res.Count("helpers", len(helperOK))
+	im.UseNorm(keepNames(helperOK), norm.Options{})
 
 	kms, missing := im.KindMethods()
 	for _, m := range missing {
@@ -162,7 +164,7 @@ func (im *Impl) traverseMethod(res *report.RuleResult, km KM, visitorFields, hel
 	recv, n := im.recvObj(fd), im.paramObj(fd, 0)
 	fn := "Traverser." + k.Method
 	pos := im.pos(fd)
-	ps, err := paths.Enumerate(fd.Body)
+	ps, err := paths.Enumerate(im.Body(fd))
 	if err != nil {
 		res.Unknown(k.Name, pos, fn, "undecided:idiom: "+err.Error())
 		return
